@@ -14,7 +14,7 @@
 From Coq Require Import String List Bool Arith ZArith.
 From V Require Import Model.Universe Model.Group Model.DataId Model.DataIdX Model.DataIdCheck Gen.Universes
   Proofs.GroupProofs Proofs.DataIdProofs Proofs.DataIdProofsExpand Proofs.DataIdProofsShipped Proofs.DataIdProofsErrors Proofs.DataIdProofsUnion
-  Proofs.DataIdProofsX Proofs.DataIdProofsX2 Proofs.DataIdProofsX3 Proofs.DataIdProofsOldA Proofs.DataIdProofsX4 Proofs.DataIdProofsX5 Proofs.DataIdProofsX6.
+  Proofs.DataIdProofsX Proofs.DataIdProofsX2 Proofs.DataIdProofsX3 Proofs.DataIdProofsOldA Proofs.DataIdProofsX4 Proofs.DataIdProofsX5 Proofs.DataIdProofsX6 Proofs.DataIdProofsX7.
 Import ListNotations.
 Open Scope string_scope.
 Open Scope list_scope.
@@ -531,8 +531,12 @@ Print Assumptions expand_records_sound_stored.
      wf_dataid u d           d's group is a group of u, d holds its required values, and is full if it has records
      standardize_dc2         standardize(DataCoordinate, ...) after 822ddb5 (subset's KeyError -> DimensionNameError)
      carried_ok d s          all(standardized.mapping.get(k, v) == v for k, v in dataId.mapping.items())     (b51cefc)
-     expand_data_id_dc2      expandDataId(DataCoordinate, dimensions=, records=, **kw) as repaired (`_x2`: code-exact fetch key)
-     expand_data_id_dc_x     the same BEFORE the two repairs (kept for the witnesses)
+     carried_valid u e keys r   43639c3: a carried record's own required key values equal the keys of the data ID being expanded
+     expand_keys_c / expand_data_id_dc_x3   the walk / expandDataId(DataCoordinate, dimensions=, records=, **kw) AS SHIPPED (43639c3)
+     expand_data_id_dc_x2    the b51cefc variant (whole-mapping test), expand_data_id_dc_x the code before the repairs (witnesses only)
+     carried_stored u D c    every non-None carried record is a row of the store (fetching its own key gives it; key complete, non-null)
+     rec_ok_c                an attached record for an element the argument carried a non-None record for, and every fetched record, is
+                             the stored row under the final values (rec_ok); a carried None stays None; records= entries as rec_ok_r
    ====================================================================================================================== *)
 
 (* a union may claim hasRecords() only if it has a record for EVERY ELEMENT of its group (and is full): recs_cover is preserved
@@ -554,12 +558,7 @@ Theorem union_records_carried : forall u a b c ra rb, drecs a = Some ra -> drecs
 Proof. exact union_records_carried_p. Qed.
 Print Assumptions union_records_carried.
 
-(* expandDataId(DataCoordinate, ...): ONLY DOCUMENTED FAILURES (positive since 822ddb5) *)
-Theorem expand_dc_errors_documented : forall u D given dims d kw df e, wf_universe u = true -> wf_dataid u d ->
-  (forall s, standardize_dc2 u dims d kw df = Ok s -> lookup_okb u (dgroup s) = true) ->
-  expand_data_id_dc2 u D given dims d kw df = Err e -> documented e = true.
-Proof. exact expand_dc_err_p. Qed.
-Print Assumptions expand_dc_errors_documented.
+
 
 Theorem standardize_dc_errors_documented : forall u dims d kw df e, wf_universe u = true -> wf_dataid u d ->
   standardize_dc2 u dims d kw df = Err e -> e = EDimensionName.
@@ -573,22 +572,9 @@ Theorem expand_dc_errors_documented_refuted_without_fix :
 Proof. exact expand_dc_keyerror_refuted_without_fix_p. Qed.
 Print Assumptions expand_dc_errors_documented_refuted_without_fix.
 
-(* expandDataId(DataCoordinate, ...): SOUND when the argument is a sound expansion and the standardized data ID keeps every value
-   of the argument: every attached record, carried or fetched, is the stored row under the final values *)
-Theorem expand_dc_sound : forall u D d s k1 recs,
-  consistent u D (dgroup d) (dmapping d) (carried_records d) ->
-  (forall k v, dc_get d k = Some v -> dc_get s k = Some v) ->
-  expand_keys_r u D (dgroup s) (carried_records2 d s) (dmapping s) = Ok (k1, recs) ->
-  extends k1 (dmapping s) /\ glookup (dgroup s) = GOk (map fst recs) /\ consistent u D (dgroup s) k1 recs.
-Proof. exact expand_dc_sound_p. Qed.
-Print Assumptions expand_dc_sound.
 
-(* b51cefc: a keyword that overrides a value of the argument => the carried records are not used at all *)
-Theorem expand_dc_override_refetches : forall u D given dims d kw df s,
-  standardize_dc2 u dims d kw df = Ok s -> carried_ok d s = false ->
-  expand_data_id_dc2 u D given dims d kw df = expand_r u D given s.
-Proof. exact expand_dc_override_refetches_p. Qed.
-Print Assumptions expand_dc_override_refetches.
+
+
 
 Theorem expand_dc_carried_records_refuted_without_fix :
   exists a d, expand_data_id_x u_current ex_db2 [] None [("instrument", VStr "Cam"); ("visit", VInt 5)] [] [] = Ok a /\
@@ -599,15 +585,52 @@ Theorem expand_dc_carried_records_refuted_without_fix :
 Proof. exact expand_dc_carried_records_refuted_without_fix_p. Qed.
 Print Assumptions expand_dc_carried_records_refuted_without_fix.
 
-(* ... but expand_dc_sound's second hypothesis cannot be dropped, also after b51cefc (finding
-   F-C13-expand-dc-carried-record-of-dropped-value): expanded {Cam, pf1} with visit=7 (stored filter pf2, band r) returns
-   physical_filter pf2 with band g; the same values as a mapping give band r *)
-Theorem expand_dc_carried_records_residual_refuted :
+
+
+(* ---- expandDataId(DataCoordinate, ...) as shipped since 43639c3 ---- *)
+(* SOUND, with NO hypothesis relating the standardized data ID to the argument: the per-record validation makes every attached
+   non-None carried record -- kept or fetched again -- and every fetched record the stored row under the RETURNED values, with
+   implied values equal to the returned values *)
+Theorem expand_dc_sound : forall u D G carried given k0 k1 recs,
+  minimal_required_ok u = true -> dims_selfb u = true -> carried_stored u D carried ->
+  expand_keys_c u D G carried given k0 = Ok (k1, recs) ->
+  extends k1 k0 /\ glookup G = GOk (map fst recs) /\ forall x ro, In (x, ro) recs -> rec_ok_c u D G carried given k1 x ro.
+Proof. exact expand_keys_c_sound_p. Qed.
+Print Assumptions expand_dc_sound.
+
+Theorem expand_dc_without_carried_records : forall u D G given k0, expand_keys_c u D G [] given k0 = expand_keys_x u D G given k0.
+Proof. exact expand_keys_c_nil_p. Qed.
+Print Assumptions expand_dc_without_carried_records.
+
+(* ONLY DOCUMENTED FAILURES *)
+Theorem expand_dc_errors_documented : forall u D given dims d kw df e, wf_universe u = true ->
+  minimal_required_ok u = true -> dims_selfb u = true -> wf_dataid u d -> carried_stored u D (carried_records d) ->
+  (forall s, standardize_dc2 u dims d kw df = Ok s -> lookup_okb u (dgroup s) = true) ->
+  expand_data_id_dc_x3 u D given dims d kw df = Err e -> documented e = true.
+Proof. exact expand_dc3_err_p. Qed.
+Print Assumptions expand_dc_errors_documented.
+
+(* the b51cefc variant still attached pf1's record to pf2 (finding F-C13-expand-dc-carried-record-of-dropped-value, repaired by
+   43639c3); the shipped model returns exactly the expansion of the mapping {Cam, visit 7} *)
+Theorem expand_dc_carried_records_residual_refuted_without_fix :
   exists p d d', expand_data_id_x u_current ex_db2 [] None [("instrument", VStr "Cam"); ("physical_filter", VStr "pf1")] [] [] = Ok p /\
     expand_data_id_dc_x2 u_current ex_db2 [] None p [("visit", VInt 7)] [] = Ok d /\
     dc_get d "physical_filter" = Some (VStr "pf2") /\ dc_get d "band" = Some (VStr "g") /\
-    expand_data_id_x u_current ex_db2 [] None
-      [("instrument", VStr "Cam"); ("physical_filter", VStr "pf1"); ("band", VStr "g"); ("visit", VInt 7)] [] [] = Ok d' /\
-    dc_get d' "physical_filter" = Some (VStr "pf2") /\ dc_get d' "band" = Some (VStr "r").
-Proof. exact expand_dc_carried_records_residual_refuted_p. Qed.
-Print Assumptions expand_dc_carried_records_residual_refuted.
+    expand_data_id_x u_current ex_db2 [] None [("instrument", VStr "Cam"); ("visit", VInt 7)] [] [] = Ok d' /\
+    dc_get d' "band" = Some (VStr "r") /\
+    expand_data_id_dc_x3 u_current ex_db2 [] None p [("visit", VInt 7)] [] = Ok d'.
+Proof. exact expand_dc_residual_refuted_without_fix_p. Qed.
+Print Assumptions expand_dc_carried_records_residual_refuted_without_fix.
+
+Example shipped_answers_on_the_earlier_witnesses :
+  (exists d, standardize u_current None [("instrument", VStr "Cam")] [] [] = Ok d /\
+     expand_data_id_dc_x3 u_current ex_db [] (Some ["detector"]) d [] [] = Err EDimensionName) /\
+  (exists a, expand_data_id_x u_current ex_db2 [] None [("instrument", VStr "Cam"); ("visit", VInt 5)] [] [] = Ok a /\
+     expand_data_id_dc_x3 u_current ex_db2 [] None a [("visit", VInt 7)] [] = Err EInconsistent /\
+     expand_data_id_dc_x3 u_current ex_db2 [] None a [] [] = Ok a).
+Proof. exact expand_dc_shipped_answers_p. Qed.
+
+Example soundness_hypotheses_satisfiable :
+  exists a, expand_data_id_x u_current ex_db2 [] None [("instrument", VStr "Cam"); ("visit", VInt 5)] [] [] = Ok a /\
+    carried_stored u_current ex_db2 (carried_records a) /\ minimal_required_ok u_current = true /\ dims_selfb u_current = true.
+Proof. exact carried_stored_example_p. Qed.
